@@ -237,6 +237,7 @@ def fd_new(before, after, ignore=()):
 
 
 def children():
+    """child processes of this process in ANY state: a defunct (unreaped) child still occupies the process table"""
     me = os.getpid()
     out = []
     for p in os.listdir("/proc"):
@@ -246,7 +247,7 @@ def children():
             with open("/proc/%s/stat" % p) as f:
                 s = f.read()
             rest = s[s.rindex(")") + 2:].split()
-            if int(rest[1]) == me and rest[0] != "Z":
+            if int(rest[1]) == me:
                 out.append(int(p))
         except (OSError, ValueError):
             pass
